@@ -304,7 +304,10 @@ func (w *blobWriter) Write(buf []byte) (int, error) {
 		}
 	} else {
 		if w.chunk == nil {
-			w.chunk = make([]byte, 0, w.chunkSize)
+			// The chunk size might have been dictated by the server
+			// (OCI-Chunk-Min-Length), so don't pre-allocate more than
+			// we would have chosen ourselves: the slice grows as needed.
+			w.chunk = make([]byte, 0, min(w.chunkSize, defaultChunkSize))
 		}
 		w.chunk = append(w.chunk, buf...)
 	}
